@@ -123,26 +123,27 @@ TrSimFrame ==
 (* ------------------------------------------------------------ simulate: one period *)
 RowAt(ev, p, i) == ev.rows[p * ev.N + i]
 \* value function of period p in use by the simulation
-VInUse(ev, p) == IF ev.vsrc = "own" THEN Vs[p + 1] ELSE Unflat(M, p, ev.V[p + 1])
+\* (TLCEval: tabulate once per step; TLC would otherwise re-evaluate Unflat at every look-up)
+VInUse(ev, p) == IF ev.vsrc = "own" THEN Vs[p + 1] ELSE TLCEval(Unflat(M, p, ev.V[p + 1]))
 
 RowC13(ev, p, row) ==
   LET env == row.state @@ row.choice @@ ("_period" :> R(p))
   IN IF row.period # R(p) THEN "period-column"
      ELSE IF \E nm \in ToSet(ev.targets) : ~Close(TargetVal(M, nm, env), row.targets[nm], Tol) THEN "target-column"
      ELSE ""
-RowC06(ev, p, row) ==
+RowC06(ev, p, row, Vobs) ==
   IF ~RowOnGrid(M, row) THEN ""
-  ELSE LET v == Unflat(M, p, ev.V[p + 1])[RowIdx(M, row)]
+  ELSE LET v == Vobs[RowIdx(M, row)]
        IN IF v = Excl THEN "SKIP:agent-outside-space"
           ELSE IF ~Close(v, row.value, C.reltol) THEN "value-vs-array" ELSE ""
-RowVerdict(ev, p, i) ==
+RowVerdict(ev, p, i, Vn, Vobs) ==
   LET row == RowAt(ev, p, i)
       r13 == IF Grp("c13") THEN RowC13(ev, p, row) ELSE ""
       r03 == IF ~Grp("c03") THEN ""
              ELSE IF p = 0 /\ \E n \in StateNames(M) : row.state[n] # ev.init[n][i] THEN "initial-state"
              ELSE IF p < M.T - 1 THEN RowMotion(M, p, row, RowAt(ev, p + 1, i)) ELSE ""
-      r02 == IF Grp("c02") THEN RowChoice(M, p, IF p = M.T - 1 THEN <<>> ELSE VInUse(ev, p + 1), row, Tol) ELSE ""
-      r06 == IF Grp("c06") THEN RowC06(ev, p, row) ELSE ""
+      r02 == IF Grp("c02") THEN RowChoice(M, p, Vn, row, Tol) ELSE ""
+      r06 == IF Grp("c06") THEN RowC06(ev, p, row, Vobs) ELSE ""
   IN IF r13 # "" THEN r13 ELSE IF r03 # "" THEN r03 ELSE IF r02 # "" THEN r02 ELSE r06
 SkipSet == {"SKIP:transition-into-excluded-state", "SKIP:ill-defined-arithmetic",
             "SKIP:agent-outside-space", "SKIP:no-feasible-choice"}
@@ -151,7 +152,9 @@ SkipSet == {"SKIP:transition-into-excluded-state", "SKIP:ill-defined-arithmetic"
 TrSimPeriod ==
   /\ Running /\ pc = "sim" /\ t < M.T
   /\ LET ev   == Ev
-         res  == [i \in 1..ev.N |-> RowVerdict(ev, t, i)]
+         Vn   == IF Grp("c02") /\ t < M.T - 1 THEN VInUse(ev, t + 1) ELSE <<>>
+         Vobs == IF Grp("c06") THEN TLCEval(Unflat(M, t, ev.V[t + 1])) ELSE <<>>
+         res  == [i \in 1..ev.N |-> RowVerdict(ev, t, i, Vn, Vobs)]
          bad  == {i \in 1..ev.N : res[i] \notin SkipSet \cup {""}}
          skip == {i \in 1..ev.N : res[i] \in SkipSet}
      IN /\ IF bad # {}
